@@ -5,7 +5,7 @@ import ast
 
 from .. import boolfn, pm, compq, idflow, placement, pyq
 from ..pyflow import Reach
-from ..pysrc import dotted, norm
+from ..pysrc import dotted, flat, norm
 
 R = compq.RM
 GROUPS = ["posonly", "args", "rest", "kwonly", "kwargs"]
@@ -127,16 +127,37 @@ def check(ctx, src):
     # --- lambda vs def
     fl = rm.func("compile_function_lambda")
     ctx.require(fl is not None, "compile_function_lambda not found")
-    ha = pyq.contains(fl, lambda n: isinstance(n, ast.Assign) and norm(n.targets[0]) == "has_annotations")
-    ctx.need(ha is not None, "has_annotations not found")
-    t = norm(ha.value)
-    ctx.check("returns is not None" in t and "(posonly or []) + args + kwonly + [rest, kwargs]" in t, "FN-SHAPE", f"{R}|compile_function_lambda|has_annotations",
-              f"has_annotations (`{t[:120]}`) does not look at all five parameter groups and the return annotation: an annotated #* / #** parameter is emitted inside a Lambda, where Python drops the annotation",
-              R, ha.lineno, witness="(fn [#^ (f) #* xs] 1) never evaluates (f); hy2py prints an unparsable lambda", detail="all five groups + returns")
-    lam = pyq.contains(fl, lambda n: isinstance(n, ast.If) and "asty.Lambda" in norm(n))
-    ctx.check(lam is not None and norm(lam.test) == "not (has_annotations or tp or body.stmts or is_async)", "FN-SHAPE", f"{R}|compile_function_lambda|lambda-condition",
-              f"a Lambda is emitted under `{norm(lam.test) if lam is not None else None}`", R, fl.lineno, witness="statements / annotations / type parameters / async are lost in a Lambda",
-              detail="not (has_annotations or tp or body.stmts or is_async)")
+    # the Lambda is built only when nothing needs a `def`: no statements in the body, no type parameters, not async, and no
+    # annotation anywhere - return annotation and all five parameter groups.  Decided on the path condition of the
+    # asty.Lambda construction, boolean temporaries expanded.
+    lamc = [c for c in pyq.calls(fl) if dotted(c.func) == "asty.Lambda"]
+    if len(lamc) != 1:
+        ctx.unres("FN-SHAPE", f"{R}|compile_function_lambda|lambda-condition", "the Lambda construction was not recognised")
+    else:
+        at = [str(a) for a in pyq.atoms_expanded(lamc[0], fl)]
+        bodyv = next((dotted(k.value.value) for k in lamc[0].keywords if k.arg == "body" and isinstance(k.value, ast.Attribute)), None)
+        need = {"not tp": "type parameters", "not is_async": "async", f"not {bodyv}.stmts": "statements in the body"}
+        missing = [why for a, why in need.items() if a not in at]
+        ctx.decide("FN-SHAPE", f"{R}|compile_function_lambda|lambda-condition", not missing if bodyv else None,
+                   f"a Lambda is emitted under {at}: {missing} would be lost in a Lambda", R, lamc[0].lineno, witness="statements / type parameters / async are lost in a Lambda",
+                   detail="not (annotations or tp or body.stmts or is_async)")
+        # annotations: `returns is None` and a test that looks at the five parameter groups (in place, or in a helper it calls)
+        ann = [a for a in pyq.atoms_expanded(lamc[0], fl) if a not in need and str(a) != "returns is None"]
+        texts = []
+        for a in ann:
+            texts.append(str(flat(a.node)) if hasattr(a, "node") and a.node is not None else str(a))
+            for c in ast.walk(a.node) if getattr(a, "node", None) is not None else []:
+                if isinstance(c, ast.Call) and isinstance(c.func, ast.Name) and rm.func(c.func.id) is not None:
+                    texts.append(str(flat(rm.func(c.func.id))))
+                if isinstance(c, ast.Name):
+                    for d_ in [n.value for n in ast.walk(fl) if isinstance(n, ast.Assign) and len(n.targets) == 1 and isinstance(n.targets[0], ast.Name) and n.targets[0].id == c.id]:
+                        texts.append(str(flat(d_)))
+        tt = " ".join(texts)
+        groups = [g for g in ("posonly", "args", "kwonly", "rest", "kwargs") if g not in tt]
+        ret_ok = "returns is None" in at or "returns is not None" in tt
+        ctx.decide("FN-SHAPE", f"{R}|compile_function_lambda|has_annotations", None if not ann and not ret_ok else (ret_ok and not groups),
+                   f"the annotation test before emitting a Lambda does not look at {groups or 'the return annotation'}: an annotated parameter of that group is emitted inside a Lambda, where Python drops the annotation",
+                   R, lamc[0].lineno, witness="(fn [#^ (f) #* xs] 1) never evaluates (f); hy2py prints an unparsable lambda", detail="all five groups + returns")
     fnn = rm.func("compile_function_node")
     ctx.require(fnn is not None, "compile_function_node not found")
     # the node class wrapped around the final expression: Return, or Expr for an async generator - decided on the truth table
@@ -171,7 +192,19 @@ def check(ctx, src):
     apps2 = [n for n in ast.walk(cc) if isinstance(n, ast.Call) and isinstance(n.func, ast.Attribute) and n.func.attr in ("append", "extend", "insert") and isinstance(n.func.value, ast.Name) and n.func.value.id in (pos_l, kw_l)]
     kwc = [n for n in ast.walk(cc) if isinstance(n, ast.Call) and dotted(n.func) == "asty.keyword"]
     adds_kw = [a for a in apps2 if a.func.value.id == kw_l] + [n for n in ast.walk(cc) if isinstance(n, ast.AugAssign) and isinstance(n.target, ast.Name) and n.target.id == kw_l]
-    okw = all(any(k is x for a in adds_kw for x in ast.walk(a)) for k in kwc) and bool(kwc)
+    def reaches_kw(k):
+        if any(k is x for a in adds_kw for x in ast.walk(a)):
+            return True
+        # built into a local first (also through a tuple assignment), the local appended afterwards
+        st = k
+        while st is not None and not isinstance(st, ast.stmt):
+            st = getattr(st, "_parent", None)
+        if isinstance(st, ast.Assign):
+            names = {x.id for t in st.targets for x in ast.walk(t) if isinstance(x, ast.Name)}
+            return any(isinstance(x, ast.Name) and x.id in names for a in adds_kw for arg in (a.args if isinstance(a, ast.Call) else [a.value]) for x in ast.walk(arg))
+        return False
+
+    okw = all(reaches_kw(k) for k in kwc) and bool(kwc)
     ok_app = all(a.func.attr in ("append", "extend") for a in apps2)
     ctx.decide("CALL-WIRE", f"{compq.CP}|_compile_collect|appends", None if pos_l is None else (okw and ok_app), "keyword arguments must be appended (in encounter order) to the keyword list, positionals to the positional list",
                compq.CP, cc.lineno, detail="append only; asty.keyword -> keywords")
